@@ -11,7 +11,7 @@ MODULES = ["hta.trace_analysis"]
 MUST_NOT_RAISE = True
 SORT_SKIP_FUNCS = ("get_gpu_kernel_breakdown",)  # final presentation sorts; rows are matched by label
 TIE_MAX_RUN = 2
-BUDGET_S = {"quick": 480, "thorough": 3300}
+BUDGET_S = {"quick": 480, "thorough": 1200}
 ORDER = ["COMPUTATION", "COMMUNICATION", "MEMORY"]
 CONFIGS_Q = [(1, 0.8, False), (1, 1.0, True), (2, 0.5, True), (2, 0.8, False)]
 CONFIGS_T = [(k, q, m) for k in (1, 2, 3) for q in (0.5, 0.8, 1.0) for m in (False, True)]
